@@ -9,6 +9,9 @@ import YarlProofs.C09
 Continued in C11HeadlineMore.lean (theorems that need modules which import this file): the authority modifiers
 on URLs WITH a pre-filled cache, on constructor / `build` results and on every URL satisfying the invariant
 `NetlocCanon` (C11Ctor.lean, C03Netloc.lean).
+Continued in C11HeadlineMore3.lean (GAPS 2: the authority modifiers and `origin()` on URLs whose stored authority is
+ARBITRARY text — `encoded=True` — and all of C11 over `ReachE`, the closure of all entry points; C11Encoded.lean,
+C11ReachE.lean).
 
 Property statement (verbatim):
 
@@ -236,7 +239,40 @@ GAPS:
     build results and everything derived from them.  What remains open is item 8.
  2. Authorities NOT in that form (accepted verbatim by `encoded=True` / `build(authority=…, encoded=True)`,
     e.g. an empty host "user@:80", an empty user in front of a password ":pw@h", upper-case or
-    non-canonical text): no theorem about what the authority modifiers keep.
+    non-canonical text).
+    CLOSED — with the clause proved FALSE in two corners — by C11_arbitrary_authority_accessors, _modifiers,
+    _rebuilt_net, _frame_with_user, _frame_with_user_none, _frame_with_password, _frame_with_port, _frame_with_host,
+    _frame_origin, _split_fails (+ witnesses _frame_fails_for_bracket_in_host, _frame_fails_for_nothing_left,
+    _text_normalisations, _running_example, _split_fails_instance; C11Encoded.lean) and C11_reachE_frame,
+    C11_reachE_cache_agrees, C11_reachE_authority_frame, C11_reachE_authority_frame_fails_for, C11_reachE_split_fails
+    (C11ReachE.lean, over `ReachE` = the closure of ALL entry points incl. `encoded=True`, ReachE.lean), see (all in
+    C11HeadlineMore3.lean) C11_headline_arbitrary_authority_accessors, _exact_results, _with_user, _with_user_none,
+    _with_password, _with_port, _with_host, _origin, _fails_for_bracket_in_host, _fails_for_nothing_left,
+    _text_normalised, _split_fails, C11_headline_reachE_contains_every_record, C11_headline_reachE_frame,
+    C11_headline_reachE_cache_agrees, C11_headline_reachE_authority_frame, C11_headline_reachE_authority_frame_fails_for,
+    C11_headline_reachE_split_fails.
+    Proved: for a URL WITHOUT pre-filled cache whose non-empty stored authority is ANY text `split_netloc` accepts
+    (answer `np`): (a) the raw accessors are the fields of `np`; (b) the EXACT stored result of with_user /
+    with_user(None) / with_password / with_host / with_port / origin() (error cases included); (c) the frame in RELATIVE
+    form — the targeted component reads back as the quoted / encoded argument and every other authority accessor
+    (raw_user, raw_password, raw_host, explicit_port, host_subcomponent) reads THE SAME AS ON `u`, scheme / path / query /
+    fragment are copied — under the hypothesis "not (E1)" and with the exception (E2) written into the conclusions;
+    (d) if `split_netloc` REJECTS the stored text (port text "99999"), every authority modifier and `str()` fail, except
+    `origin()` on an authority without '@', which succeeds with an unprintable result.  Over `ReachE` (cache or not):
+    the frame on the five stored parts for EVERY modifier in every `encoded` mode with no hypothesis at all
+    (C11_headline_reachE_frame), and (c) for with_user / with_user(None) / with_password / with_port / with_host
+    (C11_headline_reachE_authority_frame).
+    Hypotheses: `u.pre = none` (C11Encoded.lean) resp. `ReachE e u` plus "IF `u` is a constructor result `URL(s)`, `s`
+    is inside the C09 guard `GoodAuthority`" (C11ReachE.lean; vacuous for cache-less URLs); `u.netloc ≠ []`;
+    `split_netloc` accepts the stored text; not (E1); for with_user the guards of item 3, for with_host those of item 4.
+    FALSE (witness theorems; both corners are reached through `encoded=True` and lie inside `ReachE`):
+    (E1) host text with '[' but no ':' — `URL.build(scheme='http', authority='[a[b]', path='/p', encoded=True)` has
+    raw_host 'a[b', after `.with_user('u')` raw_host is 'b' (C11_headline_arbitrary_authority_fails_for_bracket_in_host,
+    C11_headline_reachE_authority_frame_fails_for); (E2) nothing left to write — `URL('http://@/p', encoded=True)` has
+    raw_host '', after `.with_port(None)` / `.with_user(None)` / `.with_password(None)` the authority is EMPTY and
+    raw_host is None (C11_headline_arbitrary_authority_fails_for_nothing_left).  Also NOT kept: the stored TEXT of the
+    authority (port text "080" → "80", junk around brackets dropped, brackets around a host without ':' dropped, no
+    lower-casing) — only the accessors are (C11_headline_arbitrary_authority_text_normalised).  What remains: item 9.
  3. with_user: the argument is assumed a Python string with a non-empty quoted form; with_user("") is
     shown to DROP the user (C11_headline_with_user_fails_for_empty) — the property text does not say so.
  4. with_host: "reads back as the canonicalised argument" is relative to `encodeHost` (C16 says what that
@@ -252,7 +288,9 @@ GAPS:
     output is stated; that it "reads back" decoded is C06.
  7. with_path/with_name/with_suffix//, joinpath, parent: "keep authority" is equality of the stored netloc
     text; no statement for the `encoded=True` variants beyond with_path and makeChild (with_name /
-    with_suffix have no encoded flag in the model).
+    with_suffix have no encoded flag in the model).  (Restated, unchanged in content, for every URL of `ReachE` and
+    both `encoded` modes of with_path / joinpath in C11_reachE_frame, C11ReachE.lean; see C11_headline_reachE_frame,
+    C11HeadlineMore3.lean.)
  8. (new) Side conditions of the theorems that close 1.  `AuthInput` / `BuildNetOK` cover ASCII hosts of the
     supported kinds only (name / IPv4 text of visible ASCII without `/ ? # @ [ ] :`, IPv6 literal with optional
     zone id, not a bracketed non-IPv6 host).  For an IDN host `NetlocCanon` of the constructor result is
@@ -264,5 +302,23 @@ GAPS:
     C09_good_authority_of; it is not a theorem for every accepted input.  `C11_headline_invariant_kept` asks
     `op.NetArgs`: a with_host argument must encode to a fixed point of `_encode_host` (proved for every non-empty
     ASCII argument, C03_withHost_netArgs, and for IDN arguments under `IdnaSaneAt`, C03_idn_withHost_netArgs).
+    (Since C11ReachE.lean there is a third route for the shapes without a derivation of `NetlocCanon` — IPvFuture,
+    bracketed IPv4, empty host: the RELATIVE frame C11_headline_reachE_authority_frame (C11HeadlineMore3.lean) needs
+    neither `NetlocCanon` nor `Written`, only — for a constructor result — `GoodAuthority` of the input, that
+    `split_netloc` accepts the stored authority, and "not (E1)"; it does not include origin().)
+ 9. NEW.  Side conditions of the theorems that close 2, discharged by no theorem.  (a) `hs`: that `split_netloc` accepts
+    the stored authority is a hypothesis on the concrete text (decidable; the rejected case is
+    C11_headline_arbitrary_authority_split_fails); (b) "not (E1)" and the (E2) branch are conditions on the `split_netloc`
+    answer `np`, not on the input of the entry point — there is no theorem "inputs of such-and-such form never give
+    (E1)/(E2)" beyond the remark (C11ReachE.lean, not proved) that the auto-encoding entry points never store such an
+    authority; (c) `hg` of the `ReachE` theorems (`GoodAuthority` for constructor results with a cache) is the open part
+    of item 8; (d) origin() on an arbitrary authority is proved for cache-less URLs only
+    (C11_headline_arbitrary_authority_origin), it is not part of C11_headline_reachE_authority_frame; for with_host the
+    `ReachE` theorem states `host_subcomponent` = the encoded argument, `raw_host = unbracket eh` only in the cache-less
+    theorem; (e) the frames are RELATIVE ("reads as on `u`") — what the components ARE is (a) of item 2, i.e. the
+    `Rfc.authoritySplit` reading of the text (C07), not a `Written` quadruple; (f) `ReachE` contains EVERY cache-less
+    record of five Python strings (C11_headline_reachE_contains_every_record), so `hr : ReachE e u` carries no
+    information about the stored authority (C11_reachE_frame does not use it); URLs WITH a hand-made inconsistent cache
+    are outside `ReachE` and remain uncovered (C03_inconsistent_cache_counterexample).
 -/
 end Yarl
